@@ -112,7 +112,7 @@ TARGETS = {
     'C09': PLUMBING + [T(B + 'ite', B + 'ite!body'), T(B + 'var', B + 'var!body'), T(B + 'rename', B + 'rename!body'),
                        T('dd.bdd.copy_bdd', variant='two-managers'), T(ABD + 'find_or_add')] + IMAGE[2:],
     'C10': [T(B + 'is_essential'), T(B + '_support'), T(B + 'support', B + 'support!proved:names', variant='names'),
-            T(B + 'support', B + 'support!proved:levels', variant='levels')] + ASUPP,
+            T(B + 'support', B + 'support!proved:levels', variant='levels'), T(B + '_sat_len')] + ASUPP,
     'C11': [T('dd.bdd._copy_bdd', variant='two-managers'), T('dd.bdd.copy_bdd', variant='two-managers'),
             T('dd.bdd.copy_bdd', variant='same-manager', alias={'from_bdd': 'to_bdd'}), T(B + 'copy', variant='two-managers')],
     'C12': [T(B + '_load')],
